@@ -113,7 +113,8 @@ def gen_design(r, cfg):
             for _ in range(r.choice([0, 0, 0, 1, 2])):
                 w = r.choice([1, 1, 2])
                 a = gen_simple(r, m, w)
-                b = gen_simple(r, m, w)
+                # (sometimes the two sides differ in width: the narrower one takes the low bits of the wider)
+                b = gen_simple(r, m, w if r.random() < 0.7 else r.choice([1, 2, 3]))
                 if a and b:
                     m["assigns"].append((a, b))
             m["implied"] = sorted(implied)
